@@ -1,7 +1,7 @@
 (* Concrete histories, configurations and schedules used by the non-vacuity Examples of
    Properties_C09.v.  Definitions only. *)
 From Coq Require Import ZArith List Bool Arith.
-From Rc Require Import RcModel RcConc.
+From Rc Require Import RcModel RcConc RcNest.
 Import ListNotations.
 Local Open Scope Z_scope.
 
@@ -35,3 +35,13 @@ Definition ex_trace_bad_order : list event :=
   [ev 0 EReadRef 2; ev 0 EAlloc 0; ev 1 EDec 1; ev 0 EDec 0; ev 0 ECopy 0; ev 0 EFree 0].
 Definition ex_trace_no_free : list event :=
   [ev 0 EReadRef 2; ev 0 EAlloc 0; ev 0 ECopy 0; ev 1 EDec 1; ev 0 EDec 0; ev 0 EReadRef 1; ev 0 EWrite 202].
+
+(* handles stored inside payloads: variable 0 holds the head of a chain of three objects, each kept alive by its
+   predecessor only (built through the member handles), then `cur = cur->next` twice, through the converting
+   operator= and through operator=(C* ); [ex_nest_unlink]: `a->next = a->next->next`; [ex_nest_cycle]: the tail
+   points back to the head, the last variable goes, the cycle stays (every object still has a handle) *)
+Definition ex_nest_chain : list nop :=
+  [NCreate 0 10; NCreate 1 11; NAssign ARaw 0 1 1 0; NDestroy 1; NCreate 1 12; NAssign ARaw 0 2 1 0; NDestroy 1].
+Definition ex_nest_walk : list nop := ex_nest_chain ++ [NAssign AConv 0 0 0 1; NAssign ARaw 0 0 0 1].
+Definition ex_nest_unlink : list nop := ex_nest_chain ++ [NAssign ASame 0 1 0 2].
+Definition ex_nest_cycle : list nop := ex_nest_chain ++ [NAssign ARaw 0 3 0 0; NCopy 1 0 1; NDestroy 0; NReset 1 0].
